@@ -57,28 +57,62 @@ impl Kanata {
         self.overrides
             .override_keys(&mut self.cur_keys, &mut self.override_states);
 
-        // Prioritize checking the active layer in case a layer-while-held is active.
-        let active_held_layers = self.layout.bm().trans_resolution_layer_order();
-        let mut held_layer_active = false;
-        for layer in active_held_layers {
-            held_layer_active = true;
-            if let Some(outputs_for_key) = self.key_outputs[usize::from(layer)].get(&event.code) {
-                log::debug!("key outs for active layer-while-held: {outputs_for_key:?};");
-                // Non-modifiers first: repeating `b` is useful while repeating shift is not. The
-                // list is de-duplicated, so its order alone does not guarantee that a chord's
-                // key comes after its modifiers (e.g. `(multi b S-b)` yields [b, lsft]).
+        // Non-modifiers are looked for everywhere before any modifier: repeating `b` is useful
+        // while repeating shift is not. Within one list the order alone does not guarantee that
+        // a chord's key comes after its modifiers, because the list is de-duplicated (e.g.
+        // `(multi b S-b)` yields [b, lsft]). And the key that is down may not be in the layer's
+        // list at all, e.g. it came from a transparent action nested in a switch or tap-hold;
+        // a modifier of that list which happens to be held must then not win over the defsrc
+        // key.
+        for want_modifier in [false, true] {
+            // Prioritize checking the active layer in case a layer-while-held is active.
+            let active_held_layers = self.layout.bm().trans_resolution_layer_order();
+            let mut held_layer_active = false;
+            for layer in active_held_layers {
+                held_layer_active = true;
+                if let Some(outputs_for_key) =
+                    self.key_outputs[usize::from(layer)].get(&event.code)
+                {
+                    log::debug!("key outs for active layer-while-held: {outputs_for_key:?};");
+                    for osc in outputs_for_key
+                        .iter()
+                        .rev()
+                        .copied()
+                        .filter(|osc| osc.is_modifier() == want_modifier)
+                    {
+                        let kc = osc.into();
+                        if self.cur_keys.contains(&kc)
+                            || self.unshifted_keys.contains(&kc)
+                            || self.unmodded_keys.contains(&kc)
+                        {
+                            log::debug!("repeat    {:?}", KeyCode::from(osc));
+                            if let Err(e) = write_key(&mut self.kbd_out, osc, KeyValue::Repeat) {
+                                bail!("could not write key {e:?}")
+                            }
+                            return Ok(());
+                        }
+                    }
+                }
+            }
+            if held_layer_active {
+                log::debug!("empty layer-while-held outputs, probably transparent");
+            }
+
+            if let Some(outputs_for_key) =
+                self.key_outputs[self.layout.bm().default_layer].get(&event.code)
+            {
+                // Try matching a key on the default layer.
+                //
+                // This code executes in two cases:
+                // 1. current layer is the default layer
+                // 2. current layer is layer-while-held but did not find a match in the code above, e.g. a
+                //    transparent key was pressed.
+                log::debug!("key outs for default layer: {outputs_for_key:?};");
                 for osc in outputs_for_key
                     .iter()
                     .rev()
                     .copied()
-                    .filter(|osc| !osc.is_modifier())
-                    .chain(
-                        outputs_for_key
-                            .iter()
-                            .rev()
-                            .copied()
-                            .filter(|osc| osc.is_modifier()),
-                    )
+                    .filter(|osc| osc.is_modifier() == want_modifier)
                 {
                     let kc = osc.into();
                     if self.cur_keys.contains(&kc)
@@ -93,59 +127,23 @@ impl Kanata {
                     }
                 }
             }
-        }
-        if held_layer_active {
-            log::debug!("empty layer-while-held outputs, probably transparent");
-        }
 
-        if let Some(outputs_for_key) =
-            self.key_outputs[self.layout.bm().default_layer].get(&event.code)
-        {
-            // Try matching a key on the default layer.
-            //
-            // This code executes in two cases:
-            // 1. current layer is the default layer
-            // 2. current layer is layer-while-held but did not find a match in the code above, e.g. a
-            //    transparent key was pressed.
-            log::debug!("key outs for default layer: {outputs_for_key:?};");
-            for osc in outputs_for_key
-                .iter()
-                .rev()
-                .copied()
-                .filter(|osc| !osc.is_modifier())
-                .chain(
-                    outputs_for_key
-                        .iter()
-                        .rev()
-                        .copied()
-                        .filter(|osc| osc.is_modifier()),
-                )
-            {
-                let kc = osc.into();
-                if self.cur_keys.contains(&kc)
-                    || self.unshifted_keys.contains(&kc)
-                    || self.unmodded_keys.contains(&kc)
-                {
-                    log::debug!("repeat    {:?}", KeyCode::from(osc));
-                    if let Err(e) = write_key(&mut self.kbd_out, osc, KeyValue::Repeat) {
-                        bail!("could not write key {e:?}")
-                    }
-                    return Ok(());
-                }
+            // Reached here and have not exited yet.
+            // Check the standard key output itself because default layer might also be transparent
+            // and have delegated to defsrc handling.
+            if event.code.is_modifier() != want_modifier {
+                continue;
             }
-        }
-
-        // Reached here and have not exited yet.
-        // Check the standard key output itself because default layer might also be transparent
-        // and have delegated to defsrc handling.
-        log::debug!("checking defsrc output");
-        let kc = event.code.into();
-        if self.cur_keys.contains(&kc)
-            || self.unshifted_keys.contains(&kc)
-            || self.unmodded_keys.contains(&kc)
-        {
-            if let Err(e) = write_key(&mut self.kbd_out, event.code, KeyValue::Repeat) {
-                bail!("could not write key {e:?}");
+            log::debug!("checking defsrc output");
+            let kc = event.code.into();
+            if self.cur_keys.contains(&kc)
+                || self.unshifted_keys.contains(&kc)
+                || self.unmodded_keys.contains(&kc)
+            {
+                if let Err(e) = write_key(&mut self.kbd_out, event.code, KeyValue::Repeat) {
+                    bail!("could not write key {e:?}");
+                }
+                return Ok(());
             }
         }
         Ok(())
